@@ -7,23 +7,32 @@
       <area>_panics_iff_documented  : panics_iff_documented  ops_<area>_model ops_<area>_spec <area>_keys <area>_ty
       <area>_total_forms_never_panic: total_forms_never_panic ops_<area>_model <area>_total_keys <area>_total_ty
 
-    RECIPE: adding a further area X (Model/X.v) takes
-      1. one section at the end of THIS file (imports Model/X.v only):
-           [x_quiet_keys]  keys whose model entry and spec entry never return PanicV for ANY argument list
-                           (provable by the syntactic tactic [quiet_tac], no arithmetic),
-           [x_panic_keys]  keys one of whose entries can return PanicV (each needs a bridging lemma),
-           [x_keys := x_quiet_keys ++ x_panic_keys], [x_total_keys] (the option/result-returning forms),
-           [x_ty] / [x_total_ty] the typing side conditions per key (what Rust's types enforce: equal limb counts
-           of two Uint<N>, a Limb is one word, BITS < 2^32 ...; a key without an entry has no side condition),
-           [x_keys_cover] : covers x_keys ops_x_model = true   (by [vm_compute; reflexivity]) -- if a key resists,
-           leave it out of the lists, state [covers_except] instead and SAY so in tools/claims_C11.json;
-      2. one file Proofs/TotalityXP.v:
-           [x_quiet : quiet_keys_ok ops_x_model ops_x_spec x_quiet_keys]   by [quiet_tac ops_x_model ops_x_spec],
-           one lemma [key_ok M S ty "the.key"] per panicking key (destruct the test the model panics on, bridge it to
-           the spec's test with the correctness lemma of the owning property),
-           then [x_panics_iff_documented] by [panics_from_quiet] + the per-key lemmas, and
-           [x_total_forms_never_panic];
-      3. the Theorem / Print Assumptions pair and a non-vacuity Example in Props/C11.v. *)
+    RECIPE: adding a further area X (Model/X.v with ops_x_model / ops_x_spec) takes
+      1. one section at the end of THIS file (it needs Model.Limbs only; no import of Model/X.v):
+           [x_quiet_keys]  keys whose model entry and spec entry never return PanicV for ANY argument list (provable
+                           by the syntactic tactic [quiet_tac]: unfold the head, destruct the tests, no arithmetic),
+           [x_panic_keys]  keys one of whose entries has a PanicV branch (each needs a bridging lemma),
+           [x_keys := x_quiet_keys ++ x_panic_keys],
+           [x_ty : typing] the typing side condition of a key for the first statement (what Rust's types enforce: two
+                           Uint<N> have one limb count, a Limb is one word, BITS and a u32 shift are < 2^32 ...); a key
+                           without an entry has none,
+           [x_total_keys], [x_total_ty] the option / result / flag returning forms and their (typing-only) side conditions.
+         To find the partition run the loop of Proofs/TotalityAddSubP.v's [addsub_quiet] on [map fst ops_x_model]
+         (a key on which [split; open_tabs M S; np] fails goes to x_panic_keys).
+      2. one file Proofs/TotalityXP.v (imports Model/X.v, the proofs of the owning property, this file):
+           [x_cover : covers x_keys ops_x_model = true]                      by [vm_compute. reflexivity.]
+             -- if a key resists, leave it out of the lists, prove [covers_except x_keys [the keys] ops_x_model = true]
+                instead and SAY which keys are missing in tools/claims_C11.json,
+           [x_quiet : quiet_keys_ok ops_x_model ops_x_spec x_quiet_keys]     by [unfold x_quiet_keys. quiet_tac M S.]
+           one lemma [key_<k> : key_ok M S x_ty "the.key"] per panicking key: [start_key M S x_ty] opens the two entries
+             (hypotheses Hwf : wf_args a, Hty : the side condition, Hdom : spec entry <> Unsupported); destruct the test
+             the model panics on and bridge it to the spec's test with the correctness lemma of the owning property
+             (never [apply] an iff between the two tables: unification unfolds both tables; use proj1 / rewrite),
+           [#[export] Hint Resolve key_... : c11keys.]
+           [x_panics_iff_documented]   by [apply panics_from_parts; [exact x_quiet | unfold x_panic_keys; by_keys].]
+           [x_total_forms_never_panic] by [quiet_total] for keys inside x_quiet_keys, [total_via] for the others.
+      3. the two Theorem / Print Assumptions pairs, one line in C11_key_lists_cover_tables and a non-vacuity line in
+         Props/C11.v. *)
 From CB Require Import Model.Limbs.
 From Coq Require Import ZArith List String Bool Lia.
 Open Scope Z_scope.
@@ -179,6 +188,15 @@ Qed.
 Lemma total_via M S keys ty k dbg a : panics_iff_documented M S keys ty -> In k keys -> wf_args a -> typed ty k a ->
   run_tab S k dbg a <> Unsupported -> run_tab S k dbg a <> PanicV -> run_tab M k dbg a <> PanicV.
 Proof. intros P Hk Hwf Hty Hd Hs HP. apply Hs. exact (proj1 (P k dbg a Hk Hwf Hty Hd) HP). Qed.
+
+(* the first statement in terms of outcome classes (what the two-profile run of tools/vlib/c11.py compares) *)
+Lemma panics_iff_cls M S keys ty : panics_iff_documented M S keys ty ->
+  forall k dbg a, In k keys -> wf_args a -> typed ty k a -> cls (run_tab S k dbg a) <> CUnsup ->
+    (cls (run_tab M k dbg a) = CPanic <-> cls (run_tab S k dbg a) = CPanic).
+Proof.
+  intros P k dbg a Hk Hwf Hty Hd. rewrite !cls_panic. apply (P k dbg a Hk Hwf Hty).
+  intros E. apply Hd. apply cls_unsup. exact E.
+Qed.
 
 (* ================================================================== key lists, one section per area *)
 Open Scope string_scope.
